@@ -159,6 +159,36 @@ CanEnd(ts, coarse) ==
 InGrammarF(ts, coarse) == PrefixOK(ts, coarse) /\ CanEnd(ts, coarse)
 
 (* ---------------------------------------------------------------------- *)
+(* C15: cis/trans relations of a fragment text (OpenSMILES semantics).     *)
+(* A mark written between atoms x and y, x written first, has sign +1 for  *)
+(* "/" and -1 for "\\"; read the other way round the sign flips.  A ligand  *)
+(* l of double-bond atom a lies "below" (-1) if SignOf(l, a) = +1.         *)
+(* Two ligands on different ends are cis iff they lie on the same side.    *)
+(* ---------------------------------------------------------------------- *)
+MarkSign(m) == IF m.c = "/" THEN 1 ELSE -1
+SignOf(fs, x, y) ==
+  IF \E i \in DOMAIN fs.marks : fs.marks[i].left = x /\ fs.marks[i].right = y
+  THEN MarkSign(fs.marks[CHOOSE i \in DOMAIN fs.marks : fs.marks[i].left = x /\ fs.marks[i].right = y])
+  ELSE IF \E i \in DOMAIN fs.marks : fs.marks[i].left = y /\ fs.marks[i].right = x
+  THEN -MarkSign(fs.marks[CHOOSE i \in DOMAIN fs.marks : fs.marks[i].left = y /\ fs.marks[i].right = x])
+  ELSE 0
+Side(fs, l, a) == -SignOf(fs, l, a)
+FBonded(fs, x, y) == \E e \in fs.bonds : {e[1], e[2]} = {x, y}
+Ligands(fs, a, other) == {x \in 0..(Len(fs.atoms) - 1) : x # other /\ FBonded(fs, x, a) /\ SignOf(fs, x, a) # 0}
+RelOf(fs, l1, a1, a2, l2) == IF Side(fs, l1, a1) = Side(fs, l2, a2) THEN "cis" ELSE "trans"
+(* <<ligand, anchor, anchor, ligand, relation>> in both reading directions (atom ids 0-based) *)
+FragRel(ts) ==
+  LET fs == DenoteF(ts, FALSE)
+      dbl == {e \in fs.bonds : e[3] = 4}
+  IN UNION { UNION { { <<l1, e[1], e[2], l2, RelOf(fs, l1, e[1], e[2], l2)>>, <<l2, e[2], e[1], l1, RelOf(fs, l1, e[1], e[2], l2)>> } :
+                      l1 \in Ligands(fs, e[1], e[2]), l2 \in Ligands(fs, e[2], e[1]) } : e \in dbl }
+(* chirality labels written as annotation x=... : atom id -> label *)
+ChiralOf(ts) ==
+  LET fs == DenoteF(ts, FALSE) IN
+  [a \in {i \in 0..(Len(fs.atoms) - 1) : \E p \in BindAttrs(fs.atoms[i + 1].a, AtomDialect) : p[1] = "chiral"} |->
+      (CHOOSE p \in BindAttrs(fs.atoms[a + 1].a, AtomDialect) : p[1] = "chiral")[2]]
+
+(* ---------------------------------------------------------------------- *)
 (* C13: what strip_bonding_descriptors must report                         *)
 (* ---------------------------------------------------------------------- *)
 DescString(d) == d[1] \o d[2] \o ToString(d[3])
